@@ -9,7 +9,7 @@
    map (filter + ID collision check per resource); [obj_cluster_scoped t obj] = Gvk.IsClusterScoped over
    scope table t; [obj_namespace] = RNode.GetNamespace; [ns_chain] = one resource through the directives
    of its layer chain, [outermost] the last non-empty one. *)
-From KV Require Import Res.Labels Res.LabelsProofs Res.Namespace Res.NamespaceProofs Res.NamespaceGen.
+From KV Require Import Res.Labels Res.LabelsProofs Res.Namespace Res.NamespaceProofs Res.NamespaceTree Res.NamespaceGen.
 From KV Require Import Gen.NsScope Gen.FieldSpecs.
 
 (* ---- obligations on the generated tables (vm_compute) ---- *)
@@ -67,6 +67,17 @@ Theorem C09_outermost_wins :
     obj_namespace obj' = outermost ds.
 Proof. exact outermost_wins_default. Qed.
 Print Assumptions C09_outermost_wins.
+
+(* whole trees (the function the build correspondence runs): every output resource is the image of a resource
+   of some layer under the directives from that layer up to the root, and carries the outermost of them *)
+Theorem C09_build_outermost_wins :
+  forall (l : nlayer) (out : list node),
+    accumulate_ns gen_ns_scope gen_namespace_fs l = Ok out ->
+    Forall (fun o => exists r ch, nreaches l r ch /\
+                     (meta_not_seq r = true -> obj_cluster_scoped gen_ns_scope r = false ->
+                      outermost ch <> "" -> obj_namespace o = outermost ch)) out.
+Proof. exact build_outermost_wins. Qed.
+Print Assumptions C09_build_outermost_wins.
 
 (* ---- the whole resource map: every resource is the filter's image, ids are pairwise distinct, nothing
    is merged or dropped. Contrapositive: if two resources would carry the same id after the move the
